@@ -41,30 +41,30 @@ CHECKS["C07"] = dict(
 CHECKS["C08"] = dict(
     cat="fault_enumeration", design="4.2, 6/C08",
     technique="ArraySteps.tla with failing parity writes (writer error counters as in io.c) checked by TLC; EIO/ENOSPC injected by the shim at every data read, parity read and parity write of real sync/scrub runs over io-cache depths; C08 evaluated by TLC on the projected post-state",
-    text="Every read/write call on data and parity files of real sync and scrub runs is a fault point; the post-state must show a failing status and the stripe unsynced or bad, and the follow-up fix -e / sync / check are validated against the specification. Reader-side faults hold; writer-side faults reproduce the two announced defects (F3, F4), reported as known findings by signature.",
+    text="Every read/write call on data and parity files of real sync and scrub runs is a fault point; the post-state must show a failing status and the stripe unsynced or bad, every OTHER stripe must end as in the faultless run of the specification (SyncResult / ScrubResult), one failing call is one error in the summary, and the follow-up fix -e / sync / check are validated against the specification; sync -h (errors in the pre-hash phase) and one-stripe arrays (every processed stripe fails) included. Reader-side faults hold; writer-side faults reproduce the two announced defects (F3, F4), reported as known findings by signature.",
     note="One injected fault per run; faults injected at the libc call.")
 
 CHECKS["C09"] = dict(
     cat="fault_enumeration", design="6/C09",
     technique="ContentFormat.tla (normative encoder/strict decoder) and ContentSave.tla (tmp/fsync/verify/rename steps, Crash anywhere) checked by TLC; every bit flip and truncation of content files fed to the ASan build; kill points inside the save sequence with 1..4 copies, traces validated against ContentSaveTrace.tla",
-    text="Every single-bit flip and every truncation of content files of all shapes (TLC-generated and tool-written, formats 2 and 3) must be rejected by status/diff/check/sync of the ASan+UBSan build without a sanitizer report and without changing any file; the save sequence is killed at every system call and every copy must be a complete old, pre-sync or final image; the recorded call sequence must be a behaviour of ContentSave.tla.",
+    text="Every single-bit flip and every truncation of content files of all shapes (TLC-generated and tool-written, formats 2 and 3) must be rejected by status/diff/check/sync of the ASan+UBSan build without a sanitizer report and without changing any file; the save sequence is killed at every system call (format 2 and format 3 arrays, growing and shrinking content) and every copy must be a complete old, pre-sync or final image, the next command must bring all copies to the same bytes; every write to a temporary is also made to reach the file with one bit altered (the call succeeds): the re-read must stop the command before any rename (TmpWriteBad / Verify of ContentSave.tla); the recorded call sequence must be a behaviour of ContentSave.tla.",
     note="Memory safety is observed by ASan/UBSan (auxiliary observer outside the TLA+ argument); records appended after the N record are outside the property's statement (listed in the evidence).")
 CHECKS["C10"] = dict(
     cat="translation_validation", design="6/C10",
     technique="ContentFormat.tla as normative encoder: TLC-generated states encoded by TLC are loaded/rewritten/listed by the tool (spec->code); every content file written by the tool in seeded histories is decoded independently and re-encoded by the transliteration of the spec that is checked against TLC each run (code->spec)",
-    text="Two encoders of the same format (the TLA+ one and the tool's) are compared byte for byte in both directions over TLC-generated states (every record kind, run shapes, boundary values) and over the states the tool reaches in random histories; test-rewrite must reproduce files; every content copy must load to the same state.",
+    text="Two encoders of the same format (the TLA+ one and the tool's) are compared byte for byte in both directions over TLC-generated states (every record kind, run shapes, boundary values) and over the states the tool reaches in random histories; test-rewrite must reproduce files; every content copy must load to the same state; after a successful sync the saved state names exactly the files, links and empty directories on the disks (also for a disk holding nothing but empty directories or links).",
     note="Fields refreshed on rewrite (free/total block counts, parity paths in Q records) are compared modulo exactly those; hash sizes other than 2/4/8/16 exist only in the model.")
 CHECKS["C14"] = dict(
     cat="model_checking", design="6/C14",
     technique="guards of Sync in Array.tla (empty/rewritten disk, zero-size file, short parity) validated by TLC on traces of real refused and overridden syncs; configuration guards and the lock as Refused steps of ArrayTrace.tla with digests before/after; second command started while the first is SIGSTOPped by the shim",
-    text="Each history applies every trigger on some disk/level with or without other pending changes; TLC checks that the specification's Sync refuses exactly when the binary does, that a refusal changes neither content nor parity (missing = empty parity file), and that the override lets the same sync proceed; the lock is exercised by stopping a running command at a random system call and starting every other command.",
+    text="Each history applies every trigger on some disk/level with or without other pending changes; TLC checks that the specification's Sync refuses exactly when the binary does, that a refusal changes neither content nor parity (missing = empty parity file), and that the override lets the same sync proceed; the lock is exercised by stopping a running command at a random system call and starting every other command, and by a second flow in which a command that has ended (stopped just before it would unlink the lock file, if it did) overlaps a running lock holder. What the property demands (r.must of SyncResult) is evaluated separately from what the code does, so that an interlock the code does not apply is a violation: arrays with format-3 content exhibit finding F12 (lost parity not refused), reported by signature.",
     note="Abstractions of Array.tla; the lock is observed at process level (flock), start offsets sampled.")
 
 CHECKS["C19"] = dict(
     cat="model_checking", design="6/C19",
     technique="copy detection, provisional (REP) hashes, pre-hash, --force-nocopy, search and import fetch modelled in Array.tla; real histories with decoys (same name/size/stamp, other content) validated by TLC against it; invariant on real states: no block recorded as synced with a hash that is not the hash of its data",
     text="TLC validates every sync and fix of seeded histories with true copies and decoys on other disks and in import directories, moves, zero and non-zero sub-second stamps, -h and --force-nocopy against the specification (admissible copy sources, REP blocks verified before they become BLK, pre-hash mismatch stops before any parity write, fetched blocks only by matching hash) and evaluates the C19 invariant and FixHonest on the real states.",
-    note="Inode-based identity (same inode, size, stamp) is not exercised: no usable UUID in the sandbox; disks scanned sequentially in the conformance runs (parallel scan race = finding F10).")
+    note="Inode-based identity (same inode, size, stamp) is not exercised: no usable UUID in the sandbox; disks scanned sequentially in the conformance runs (parallel scan race = finding F11).")
 
 CHECKS["C11"] = dict(
     cat="model_checking", design="6/C11",
@@ -92,11 +92,11 @@ ARRAY_NOTE = ("Abstractions of Array.tla: hash injective on the block values use
               "random 1 KiB blocks make collisions negligible.")
 for pid, cat, tech, text in [
     ("C06", "model_checking", "ArrayMC.tla explored by TLC with ParityValid/MapSane evaluated after every command; the same invariants evaluated by TLC on projected states of real runs (ArrayTrace.tla)",
-     "TLC explores all histories of edits, complete/killed/partially skipped syncs and fix within the small bounds and checks the invariants in every state; traces of the real binary over seeded random histories are validated step by step against the same specification and the invariants are evaluated on every real state (independent content decoder and parity recomputation)."),
+     "TLC explores all histories of edits, complete/killed/partially skipped syncs and fix within the small bounds and checks the invariants in every state; the whole command set (rehash, scrub, sync -R, filtered fixes) is simulated on ArrayMC_ext; traces of the real binary over seeded random histories (ranges, copies, -F, -R, pre-hash, killed syncs, rehash, filtered fix, touch) are validated step by step against the same specification and the invariants are evaluated on every real state (independent content decoder and parity recomputation)."),
     ("C05", "model_checking", "ArrayMC.tla: FixHonest as action property, TLC exhaustive + simulation; trace validation of real fix runs with the version store as oracle; announced counterexamples replayed on the binary",
-     "TLC checks on the model that fix never leaves a wrong block unreported, for all bounded histories including interrupted syncs; real fix runs are validated against the specification and against the version store. The two announced defects (F1, F2) are found by TLC on the model, confirmed by replay, and reported as known findings; anything else fails the check."),
+     "TLC checks on the model that fix never leaves a wrong block unreported, for all bounded histories including interrupted syncs; real fix runs (whole, -S/-B ranges, under -d / -f / -m / -e / -b, with import directories) are validated against the specification and against the version store; files outside the selection must stay untouched. The two announced defects (F1, F2) are found by TLC on the model, confirmed by replay, and reported as known findings, as is F7 (reduced hash sizes); anything else fails the check."),
     ("C01", "model_checking", "ArrayMC.tla: FixRestores for every damage within the parity count; trace validation + version-store comparison of real damage/fix/check rounds over configurations",
-     "TLC enumerates clean-synced states x damage patterns within NP per stripe and checks that fix restores everything; real arrays (1..6 parities, several disk counts) are damaged within bounds, fixed and compared byte for byte and time stamp for time stamp with the version store, then checked."),
+     "TLC enumerates clean-synced states x damage patterns within NP per stripe and checks that fix restores everything; real arrays (1..6 parities incl. z-parity, several disk counts, both hash functions, reduced hash sizes, split parity, a hash migration in progress, symbolic and hard links, empty directories) are damaged within bounds (devices lost, files deleted, silent corruption, parity lost or corrupted, names of same-size files exchanged), fixed and compared byte for byte and time stamp for time stamp with the version store, links and directories included, then checked."),
     ("C04", "model_checking", "detection sets of check/scrub compared (both directions) with the ground-truth damage computed in TLA+ on the projected real state; TLC model of check/scrub validated by traces",
      "For every real check/scrub on a synced array the reported data/parity errors, marks and exit class are compared by TLC with the damage computed from the projected state; the model of check/scrub in Array.tla is validated on the same traces."),
     ("C12", "model_checking", "frame conditions of every command checked by TLC on byte-level digests recorded before/after each real command, plus the shim's system-call trace against the command's write set",
